@@ -45,6 +45,10 @@ func CheckMnemonic(mnemonic string, lg Language) error {
 
 	// get real entropy
 	entBytes := entBig.Quo(entBig, big.NewInt(shift)).Bytes()
+	// big.Int.Bytes drops leading zero bytes: restore the full ENT/8 bytes
+	if pad := wordCount/3*4 - len(entBytes); pad > 0 {
+		entBytes = append(make([]byte, pad), entBytes...)
+	}
 	// get checksum from real entropy
 	hash := sha256.New()
 	_, _ = hash.Write(entBytes)
